@@ -1,0 +1,220 @@
+//go:build verif
+
+package ast
+
+// TEMP sweep
+//@ func (*Ident).String
+//@ props C03
+//@ safety nil index slice
+//@ assume[recv.nonnil] i != nil
+
+//@ func (*Prefix).String
+//@ props C03
+//@ safety nil index slice
+//@ assume[recv.nonnil] p != nil
+
+//@ func (*Infix).String
+//@ props C03
+//@ safety nil index slice
+//@ assume[recv.nonnil] i != nil
+
+//@ func (*If).String
+//@ props C03
+//@ safety nil index slice
+//@ assume[recv.nonnil] i != nil
+
+//@ func (*Ternary).String
+//@ props C03
+//@ safety nil index slice
+//@ assume[recv.nonnil] t != nil
+
+//@ func (*Call).String
+//@ props C03
+//@ safety nil index slice
+//@ assume[recv.nonnil] c != nil
+
+//@ func (*GetAttr).String
+//@ props C03
+//@ safety nil index slice
+//@ assume[recv.nonnil] e != nil
+
+//@ func (*Pipe).String
+//@ props C03
+//@ safety nil index slice
+//@ assume[recv.nonnil] p != nil
+
+//@ func (*ObjectCall).String
+//@ props C03
+//@ safety nil index slice
+//@ assume[recv.nonnil] c != nil
+
+//@ func (*Index).String
+//@ props C03
+//@ safety nil index slice
+//@ assume[recv.nonnil] i != nil
+
+//@ func (*Slice).String
+//@ props C03
+//@ safety nil index slice
+//@ assume[recv.nonnil] s != nil
+
+//@ func (*Case).String
+//@ props C03
+//@ safety nil index slice
+//@ assume[recv.nonnil] c != nil
+
+//@ func (*Switch).String
+//@ props C03
+//@ safety nil index slice
+//@ assume[recv.nonnil] s != nil
+
+//@ func (*In).String
+//@ props C03
+//@ safety nil index slice
+//@ assume[recv.nonnil] i != nil
+
+//@ func (*NotIn).String
+//@ props C03
+//@ safety nil index slice
+//@ assume[recv.nonnil] n != nil
+
+//@ func (*Range).String
+//@ props C03
+//@ safety nil index slice
+//@ assume[recv.nonnil] r != nil
+
+//@ func (*Receive).String
+//@ props C03
+//@ safety nil index slice
+//@ assume[recv.nonnil] r != nil
+
+//@ func (*Int).String
+//@ props C03
+//@ safety nil index slice
+//@ assume[recv.nonnil] i != nil
+
+//@ func (*Float).String
+//@ props C03
+//@ safety nil index slice
+//@ assume[recv.nonnil] f != nil
+
+//@ func (*Nil).String
+//@ props C03
+//@ safety nil index slice
+//@ assume[recv.nonnil] n != nil
+
+//@ func (*Bool).String
+//@ props C03
+//@ safety nil index slice
+//@ assume[recv.nonnil] b != nil
+
+//@ func (*Func).String
+//@ props C03
+//@ safety nil index slice
+//@ assume[recv.nonnil] f != nil
+
+//@ func (*String).String
+//@ props C03
+//@ safety nil index slice
+//@ assume[recv.nonnil] s != nil
+
+//@ func (*List).String
+//@ props C03
+//@ safety nil index slice
+//@ assume[recv.nonnil] l != nil
+
+//@ func (*Map).String
+//@ props C03
+//@ safety nil index slice
+//@ assume[recv.nonnil] m != nil
+
+//@ func (*Set).String
+//@ props C03
+//@ safety nil index slice
+//@ assume[recv.nonnil] s != nil
+
+//@ func (*Program).String
+//@ props C03
+//@ safety nil index slice
+//@ assume[recv.nonnil] p != nil
+
+//@ func (*Var).String
+//@ props C03
+//@ safety nil index slice
+//@ assume[recv.nonnil] s != nil
+
+//@ func (*MultiVar).String
+//@ props C03
+//@ safety nil index slice
+//@ assume[recv.nonnil] s != nil
+
+//@ func (*Const).String
+//@ props C03
+//@ safety nil index slice
+//@ assume[recv.nonnil] c != nil
+
+//@ func (*Control).String
+//@ props C03
+//@ safety nil index slice
+//@ assume[recv.nonnil] c != nil
+
+//@ func (*Return).String
+//@ props C03
+//@ safety nil index slice
+//@ assume[recv.nonnil] r != nil
+
+//@ func (*Block).String
+//@ props C03
+//@ safety nil index slice
+//@ assume[recv.nonnil] b != nil
+
+//@ func (*For).String
+//@ props C03
+//@ safety nil index slice
+//@ assume[recv.nonnil] f != nil
+
+//@ func (*ForIn).String
+//@ props C03
+//@ safety nil index slice
+//@ assume[recv.nonnil] f != nil
+
+//@ func (*Assign).String
+//@ props C03
+//@ safety nil index slice
+//@ assume[recv.nonnil] a != nil
+
+//@ func (*Import).String
+//@ props C03
+//@ safety nil index slice
+//@ assume[recv.nonnil] i != nil
+
+//@ func (*FromImport).String
+//@ props C03
+//@ safety nil index slice
+//@ assume[recv.nonnil] i != nil
+
+//@ func (*Postfix).String
+//@ props C03
+//@ safety nil index slice
+//@ assume[recv.nonnil] p != nil
+
+//@ func (*SetAttr).String
+//@ props C03
+//@ safety nil index slice
+//@ assume[recv.nonnil] e != nil
+
+//@ func (*Go).String
+//@ props C03
+//@ safety nil index slice
+//@ assume[recv.nonnil] g != nil
+
+//@ func (*Defer).String
+//@ props C03
+//@ safety nil index slice
+//@ assume[recv.nonnil] d != nil
+
+//@ func (*Send).String
+//@ props C03
+//@ safety nil index slice
+//@ assume[recv.nonnil] s != nil
+
